@@ -79,22 +79,22 @@ type Space struct {
 
 // shardResult is what a worker reports for one job.
 type shardResult struct {
-	Execs     int64            `json:"execs"`
-	Skipped   int64            `json:"skipped"`
-	Points    int64            `json:"points"`
-	MaxDepth  int              `json:"max_depth"`
-	MaxDev    int              `json:"max_dev"`
-	Trivial   int64            `json:"trivial"`
-	Pruned    int64            `json:"pruned"`
-	Keys      string           `json:"keys,omitempty"` // base64 of packed uint64 key hashes (non-trivial only)
-	Outcomes  map[string]int64 `json:"outcomes,omitempty"`
-	Stats     map[string]int64 `json:"stats,omitempty"`
-	Sets      map[string][]string `json:"sets,omitempty"`
-	Viol      []foundViolation `json:"viol,omitempty"`
-	Samples   []sample         `json:"samples,omitempty"`
-	Children  [][]PrefixEntry  `json:"children,omitempty"` // expand jobs only
-	Complete  bool             `json:"complete"`
-	HarnessErr string          `json:"harness_err,omitempty"`
+	Execs      int64               `json:"execs"`
+	Skipped    int64               `json:"skipped"`
+	Points     int64               `json:"points"`
+	MaxDepth   int                 `json:"max_depth"`
+	MaxDev     int                 `json:"max_dev"`
+	Trivial    int64               `json:"trivial"`
+	Pruned     int64               `json:"pruned"`
+	Keys       string              `json:"keys,omitempty"` // base64 of packed uint64 key hashes (non-trivial only)
+	Outcomes   map[string]int64    `json:"outcomes,omitempty"`
+	Stats      map[string]int64    `json:"stats,omitempty"`
+	Sets       map[string][]string `json:"sets,omitempty"`
+	Viol       []foundViolation    `json:"viol,omitempty"`
+	Samples    []sample            `json:"samples,omitempty"`
+	Children   [][]PrefixEntry     `json:"children,omitempty"` // expand jobs only
+	Complete   bool                `json:"complete"`
+	HarnessErr string              `json:"harness_err,omitempty"`
 }
 
 type foundViolation struct {
@@ -117,7 +117,7 @@ type job struct {
 	Space    string        `json:"space"`
 	Prefix   []PrefixEntry `json:"prefix"`
 	Bound    int           `json:"bound"`
-	Deadline int64         `json:"deadline"` // unix nanos; 0 = none
+	Deadline int64         `json:"deadline"`  // unix nanos; 0 = none
 	MaxExecs int64         `json:"max_execs"` // subtree jobs: after this many executions hand the rest of the frontier back
 	Tier     string        `json:"tier"`
 }
@@ -151,9 +151,25 @@ func choicesKey(pts []Point) uint64 {
 	return h
 }
 
+var (
+	heartbeatFile *os.File
+	heartbeatN    int64
+)
+
+// Heartbeat tells the hang watchdog that the case being executed is alive. A body whose single execution is a
+// long search of its own (engine B) calls it from its loop; the first line of the progress file (the case) is
+// left alone.
+func Heartbeat() {
+	if heartbeatFile != nil {
+		heartbeatN++
+		heartbeatFile.WriteAt([]byte(fmt.Sprintf("\nalive %d\n", heartbeatN)), 4200)
+	}
+}
+
 // execute runs one execution for the given prefix and records it.
 func (r *runner) execute(prefix []PrefixEntry, keepLabels bool) (c *Chooser, cs *Case) {
 	c = &Chooser{prefix: prefix, KeepLabels: keepLabels}
+	heartbeatFile = r.progress
 	if r.progress != nil {
 		var buf [4096]byte
 		r.nexec++
